@@ -460,3 +460,48 @@ func (p *Program) FieldIsScan(key, target string) []string {
 	}
 	return bad
 }
+
+// OverridesAllScan: the named struct type declares, itself, every method of
+// its embedded interface field that returns an error (a wrapper that is meant
+// to translate errors must not let one be promoted from the embedded value).
+func (p *Program) OverridesAllScan(typeName, field string) []string {
+	obj := p.Root.Pkg.Scope().Lookup(typeName)
+	tn, ok := obj.(*types.TypeName)
+	if !ok {
+		return []string{"no type " + typeName}
+	}
+	named, ok := tn.Type().(*types.Named)
+	if !ok {
+		return []string{typeName + " is not a named type"}
+	}
+	st, ok := named.Underlying().(*types.Struct)
+	if !ok {
+		return []string{typeName + " is not a struct"}
+	}
+	var iface *types.Interface
+	for i := 0; i < st.NumFields(); i++ {
+		if st.Field(i).Name() == field && st.Field(i).Embedded() {
+			iface, _ = st.Field(i).Type().Underlying().(*types.Interface)
+		}
+	}
+	if iface == nil {
+		return []string{typeName + " has no embedded interface field " + field}
+	}
+	own := map[string]bool{}
+	for i := 0; i < named.NumMethods(); i++ {
+		own[named.Method(i).Name()] = true
+	}
+	var bad []string
+	for i := 0; i < iface.NumMethods(); i++ {
+		m := iface.Method(i)
+		sig := m.Type().(*types.Signature)
+		rs := sig.Results()
+		if rs.Len() == 0 || types.TypeString(rs.At(rs.Len()-1).Type(), nil) != "error" {
+			continue
+		}
+		if !own[m.Name()] {
+			bad = append(bad, fmt.Sprintf("%s.%s is promoted from the embedded %s: its error is not translated", typeName, m.Name(), field))
+		}
+	}
+	return bad
+}
